@@ -35,6 +35,9 @@ CHECKS = {
  'C11': dict(cat='translation_validation', engine='x86sym', technique='compile with each feature-flag subset and symbolically execute with the matching allowed ISA classes: reaching an instruction outside the set on a feasible path is a fault (decoder classifies per instruction form)',
              text='quick: all features, minimal, each single feature removed, per target, on a quarter of the family each; thorough: every subset x whole family.',
              note='ISA classes from the Intel SDM as encoded in engines/x86sym/decoder.py; 32-bit code generation outside; result equality under reduced flags checked in the thorough tier of C01.', ref='DESIGN.md#c11'),
+ 'C13': dict(cat='model_checking', engine='irsym', technique='symbolic execution (LLVM IR, own executor + z3, path forking) of the real construction API, encoder, decoder and re-encoder on bounded arbitrary valid programs with symbolic sizes, alignments, constants, settings and flags; field-wise and byte-wise equalities decided per path',
+             text='decode(encode(P)) equals P field by field and encode(decode(encode(P))) equals encode(P) byte by byte for every value of the symbolic fields; every real opcode, 100-instruction and all-slots boundary programs.',
+             note='names, variable kinds and instruction count concrete; integer fields 0..65534 (format range); alignment on arrays only; constants modulo size; interpreter cross-checked natively on random concrete recipes each run.', ref='DESIGN.md#c13'),
 }
 
 NOT_APPLICABLE = {
